@@ -153,6 +153,12 @@ func registerTime(reg func(string, intercept), nop intercept) {
 				e.now = e.tb.Const(64, clockBase)
 			}
 			e.now = e.tb.Bin(OpAdd, e.now, a[0].(*Term))
+		} else if e.now != nil && e.liveThreads() == 1 {
+			// pinned clock with a symbolic instant or duration, and nobody else to run meanwhile:
+			// the sleeper is the only thread, so the clock simply moves on by d (what the runtime
+			// does, and what the native fake clock does)
+			e.now = e.tb.Bin(OpAdd, e.now, a[0].(*Term))
+			return nil
 		}
 		e.Yield()
 		return nil
